@@ -666,6 +666,20 @@ impl World {
         self.sim.feed(bytes);
     }
 
+    /// The next write fails; a QoS 0 publish is started to make the client write.
+    pub fn write_err(&mut self) {
+        let at = self.sim.written_len();
+        self.sim.writer.0.borrow_mut().err_at = Some(at);
+        self.sim.note(|| format!("transport: writes fail from offset {at}"));
+        if self.term.is_none() {
+            self.term = Some(Term::WriteErr);
+        }
+        if self.sim.handles[0].is_some() {
+            let i = self.start(0, Kind::Pub0);
+            self.m[i].after_term = true;
+        }
+    }
+
     pub fn drop_all_handles(&mut self) {
         for i in 0..self.sim.handles.len() {
             if self.sim.handles[i].is_some() {
@@ -1314,7 +1328,7 @@ impl World {
                     let props: &'static [&'static str] = if cancelled { &["C13", "C15"] } else { P_C13 };
                     self.viol(
                         props,
-                        format!("C13/run-returned-without-cause/{}", match &r { Ok(()) => "Ok".to_string(), Err(e) => e.kind().to_string() }),
+                        format!("run-returned-without-cause/{}", match &r { Ok(()) => "Ok".to_string(), Err(e) => e.kind().to_string() }),
                         format!("run() returned {:?} although no terminating cause was injected{}", r, if cancelled { " (an operation had been cancelled)" } else { "" }),
                     );
                 }
